@@ -182,7 +182,7 @@ func (root *Root) resolve(
 					if firstErr == nil {
 						firstErr = err
 					}
-				} else if objType == meta {
+				} else if sameGoType(objType, meta) {
 					result, ea = root.resolveFieldSels(obj, vars, field, m, depth-1)
 					matched = true
 					break
@@ -967,7 +967,7 @@ func (root *Root) concreteType(obj interface{}, it *Interface) Type {
 		}
 		for _, i := range ot.Interfaces {
 			if i == Type(it) {
-				if meta, _ := ot.metaCheck(rt); meta == rt {
+				if meta, _ := ot.metaCheck(rt); sameGoType(meta, rt) {
 					return ot
 				}
 				break
